@@ -732,6 +732,19 @@ fn factory_cases(ctx: &Arc<Ctx>) {
 						invalid.push(v);
 						n += 1;
 					}
+					// the invalid node behind a nested read operation, for every pair of operations that take sources
+					if pre.is_empty() || *pre == " | filter_zoom min=9" {
+						let other = "from_container filename=\"mem:1\"";
+						for outer in ["from_overlayed", "from_vectortiles_merged"] {
+							invalid.push(format!("{outer} [ {src}{pre} | {b}{post}, {other} ]"));
+							for inner in ["from_overlayed", "from_vectortiles_merged"] {
+								invalid.push(format!("{outer} [ {inner} [ {src}, {other} ]{pre} | {b}{post}, {other} ]"));
+								invalid.push(format!("{outer} [ {other}, {inner} [ {src}{pre} | {b}{post}, {other} ] ]"));
+								n += 2;
+							}
+							n += 1;
+						}
+					}
 				}
 			}
 		}
@@ -747,6 +760,23 @@ fn factory_cases(ctx: &Arc<Ctx>) {
 				invalid.push(format!("from_overlayed [ {src} | filter_zoom min=9, {b}{post} ]"));
 				invalid.push(format!("from_vectortiles_merged [ {b}{post}, {src} ]"));
 				n += 4;
+				for outer in ["from_overlayed", "from_vectortiles_merged"] {
+					for inner in ["from_overlayed", "from_vectortiles_merged"] {
+						invalid.push(format!("{outer} [ {inner} [ {src}, {b}{post} ], {src} ]"));
+						invalid.push(format!("{outer} [ {src}, {inner} [ {b}{post}, {src} ] | filter_zoom max=5 ]"));
+						n += 2;
+					}
+				}
+			}
+		}
+		for outer in ["from_overlayed", "from_vectortiles_merged"] {
+			for inner in ["from_overlayed", "from_vectortiles_merged"] {
+				for bad_inner in [format!("{inner} [ {src} ]"), format!("{inner} [ ]"), format!("{inner}"), format!("{inner} colour=red [ {src}, {src} ]"), format!("{inner} [ {src}, {src} ] | no_such_operation"), format!("{inner} [ {src}, {src} ] | filter_zoom mni=2")] {
+					invalid.push(format!("{outer} [ {bad_inner}, {src} ]"));
+					invalid.push(format!("{outer} [ {src}, {bad_inner} ]"));
+					invalid.push(format!("{outer} [ {src}, {src}, {bad_inner} ] | filter_zoom max=4"));
+					n += 3;
+				}
 			}
 		}
 		ctx.outcome_n("factory: systematic invalid node x position texts", n);
@@ -775,9 +805,24 @@ fn factory_cases(ctx: &Arc<Ctx>) {
 		let src0 = "from_container filename=\"mem:0\"";
 		let orders: Vec<(Vec<&str>, &str)> = vec![(vec!["A", "B"], "second"), (vec!["B", "A"], "first"), (vec!["A", "B", "C"], "third"), (vec!["C", "A", "B"], "second"), (vec!["B", "C", "A"], "first"), (vec!["C", "B", "A", "B"], "second")];
 		for (ord, want) in orders {
-			for nested in [false, true] {
+			for nested in 0..9u8 {
 				let chain = format!("{src0}{}", ord.iter().map(|f| format!(" | {}", upd(f))).collect::<String>());
-				let vpl = if nested { format!("from_overlayed [ {chain}, from_container filename=\"mem:1\" ] | filter_zoom max=3") } else { chain };
+				// the chain up to its last operation, which then stands behind a nested read operation
+				let prefix = format!("{src0}{}", ord[..ord.len() - 1].iter().map(|f| format!(" | {}", upd(f))).collect::<String>());
+				let last = upd(ord[ord.len() - 1]);
+				let other = "from_container filename=\"mem:1\"";
+				let (ov, mg) = ("from_overlayed", "from_vectortiles_merged");
+				let vpl = match nested {
+					0 => chain,
+					1 => format!("{ov} [ {chain}, {other} ] | filter_zoom max=3"),
+					2 => format!("{mg} [ {chain}, {other} ]"),
+					3 => format!("{mg} [ {mg} [ {prefix}, {other} ] | {last}, {other} ]"),
+					4 => format!("{ov} [ {ov} [ {prefix}, {other} ] | {last}, {other} ]"),
+					5 => format!("{ov} [ {mg} [ {prefix}, {other} ] | {last}, {other} ]"),
+					6 => format!("{mg} [ {ov} [ {prefix}, {other} ] | {last}, {other} ]"),
+					7 => format!("{mg} [ {mg} [ {prefix}, {other} ] | {last} | filter_zoom max=3, {other} ] | filter_zoom min=0"),
+					_ => format!("{mg} [ {mg} [ {mg} [ {prefix}, {other} ], {other} ] | {last}, {other} ]"),
+				};
 				ctx.eval();
 				let case = json!({"kind": "factory-order", "vpl": vpl});
 				match pipeline::build_op(&rt, &fac2, &vpl) {
